@@ -1217,6 +1217,12 @@ def list_provenance(fn, name):
     if init is None:
         return None
     inits = [n for n in ast.walk(fn) if isinstance(n, ast.Assign) and any(is_name(t, name) for t in n.targets)]
+    # name = [f(x) for x in SRC]
+    if not aug and len(inits) == 1 and isinstance(inits[0].value, ast.ListComp) and len(inits[0].value.generators) == 1:
+        g = inits[0].value.generators[0]
+        if isinstance(g.iter, ast.Name) and isinstance(g.target, ast.Name) and not g.ifs \
+                and g.target.id in {x.id for x in ast.walk(inits[0].value.elt) if isinstance(x, ast.Name)}:
+            return g.iter.id, ast.unparse(inits[0].value.elt)
     if not aug and all(isinstance(n.value, ast.Name) or (isinstance(n.value, ast.List) and len(n.value.elts) == 1 and isinstance(n.value.elts[0], ast.Name)) for n in inits):
         return name, None   # the name is itself the (copied) source list
     if isinstance(init.value, ast.List) and not init.value.elts and len(aug) == 1:
@@ -1662,7 +1668,10 @@ def phase_conf_writers_rule(model, rep, rule):
     for mod, qn, fn in model.all_functions():
         if mod != "system":
             continue
-        short = qn.split(".")[-1]
+        parts = qn.split(".")
+        short = parts[-1]
+        if len(parts) >= 3 and parts[0] == "System":
+            short = parts[1]          # a function nested in a method acts for that method
         for x in ast.walk(fn):
             hit = None
             if isinstance(x, (ast.Assign, ast.AugAssign, ast.Delete)):
